@@ -133,6 +133,63 @@ theorem shift_correct {α : Type} [Inhabited α] (a : Arr α) (hwf : a.WF) (k : 
     (shiftKernel a k).decode = shiftSpec a.decode k :=
   shiftKernel_decode a hwf k
 
+/-! ### variable-width arrays, scalars, dictionaries -/
+
+/-- **`FilterBytes` moves exactly the selected slots** (physical level): for a well-formed
+byte array (monotone offsets — the first one need not be 0 — inside the value buffer) and
+every consistent predicate under the `SlicesIterator`/`Slices` variant (`extend_offsets_slices`
++ one contiguous `extend_slices` copy per run) or the `IndexIterator`/`Indices` variant
+(`extend_offsets_idx` + `extend_idx`), the rebuilt offsets and value bytes describe exactly
+the slot values under set bits, in order. -/
+theorem filterBytes_physical (b : BArr) (hw : b.WF) (p : Predicate) (hv : p.Valid)
+    (hl : p.filter.length ≤ b.len) (hs : p.strategy ≠ .all ∧ p.strategy ≠ .none) :
+    (filterBytes b p).slots = filt b.slots p.filter :=
+  filterBytes_slots b hw p hv hl hs
+
+/-- **`filter_bytes` = `filterSpec`**: `decode (filter_bytes phys) = filterSpec (decode phys)`
+for every mask (nulls allowed), every strategy, null slots of any length included. -/
+theorem filterBytes_correct (b : BArr) (hw : b.WF) (mask : List (Option Bool)) (p : Predicate)
+    (hv : p.Valid) (hf : p.filter = prepMask mask) (hl : mask.length ≤ b.len)
+    (hs : p.strategy ≠ .all ∧ p.strategy ≠ .none) :
+    (filterBytes b p).decode = filterSpec b.decode mask := by
+  rw [filterBytes_decode b hw p hv (by rw [hf, prepMask_length]; exact hl) hs, hf, filterSpec_eq_filt]
+
+/-- non-vacuity: a sliced byte array (first offset 2) with an empty slot -/
+example : (BArr.mk [2, 4, 4, 7] [9, 9, 1, 2, 3, 4, 5, 9] (some [true, false, true])).WF :=
+  ⟨by decide, by
+    intro i j hij hj
+    simp only [List.length_cons, List.length_nil] at hj
+    have : j = 0 ∨ j = 1 ∨ j = 2 ∨ j = 3 := by omega
+    rcases this with h | h | h | h <;> subst h <;>
+      (have : i = 0 ∨ i = 1 ∨ i = 2 ∨ i = 3 := by omega) <;> rcases this with h | h | h | h <;> subst h <;> first | decide | omega,
+   by
+    intro j hj
+    simp only [List.length_cons, List.length_nil] at hj
+    have : j = 0 ∨ j = 1 ∨ j = 2 ∨ j = 3 := by omega
+    rcases this with h | h | h | h <;> subst h <;> decide,
+   by intro bs h; cases h; rfl⟩
+
+/-- **byte arrays built from a list of source rows** (`take_bytes` fast path, `FilterBytes`
+index variant): running offsets + concatenated value bytes hold exactly those rows' values. -/
+theorem bytes_built_from_rows (b : BArr) (hw : b.WF) (idx : List Nat) (hin : ∀ i ∈ idx, i < b.len)
+    (n : Option (List Bool)) :
+    (BArr.mk (0 :: extendOffsetsIdx b.offsets idx 0) (extendIdx b.offsets b.data idx) n).slots
+      = idx.map (slotOf b.offsets b.data) :=
+  built_slots b hw idx hin n
+
+/-- **`zip` of two primitive scalars** (`PrimitiveScalarImpl::create_output`, all four
+null/non-null combinations) equals `zipSpec` of the broadcast scalars; a null mask slot
+selects the falsy scalar. -/
+theorem zip_scalars_correct {α : Type} [Inhabited α] (mask : List (Option Bool)) (t f : Option α) :
+    (zipScalars mask t f).decode = zipSpec mask (List.replicate mask.length t) (List.replicate mask.length f) :=
+  zipScalars_decode mask t f
+
+/-- **dictionary filter** touches only the keys: filtering the keys and then looking the
+values up gives `filterSpec` of the looked-up rows (with `filterKernel_correct` on the keys). -/
+theorem dictionary_filter_commutes {α β : Type} (lookup : α → β) (keys : List α) (mask : List (Option Bool)) :
+    filterSpec (keys.map lookup) mask = (filterSpec keys mask).map lookup :=
+  filterSpec_map lookup keys mask
+
 /-! ### batch coalescer -/
 
 /-- the freshly constructed coalescer satisfies the invariant -/
